@@ -35,6 +35,18 @@ def run(repo: Repo, tier: str, res: CheckResult, seed: int = 0) -> None:
     unresolved_annotations_refused(repo, res)
     from .. import genprog
     genprog.c14_checks(repo, tier, res, seed)
+    # a coercer is found for a LOCATION (user coercers are bound by field predicates), not for a pair of types: a planning-stage
+    # memo keyed by less hands the coercer of one field to another field with the same types -- a pair that has to be refused is
+    # accepted (hidden-memo family of C11 over conversion/, shared with C13)
+    from .. import memo
+    subm = CheckResult("C14")
+    memo.check(repo, subm, "C14", only=("/conversion/",), floors=False)
+    res.evaluated("sound:planning-memos", True)
+    for f in subm.findings:
+        res.add(Finding("C14", "SOUND.coercer-remembered-by-less-than-the-location", f.file, f.qualname, f.construct,
+                        "the coercer search is memoised under a key that leaves out part of the request: a field whose types have no "
+                        "builtin coercion gets the user coercer that was bound to ANOTHER field, and the converter is produced "
+                        "instead of refused. " + f.message[:200], f.line))
     # the refusal of unlinked fields observed on compiler output (converter pipeline family and oracle shared with C13)
     sub = CheckResult("C13")
     genprog.c13_pipeline_checks(repo, tier, sub, seed)
